@@ -33,6 +33,7 @@ import sys
 import threading
 
 from . import common
+from .common import enc
 
 TRACE_SET = ("chmod,fchmod,fchmodat,openat,open,creat,unlink,unlinkat,rename,renameat,renameat2,mkdir,mkdirat,"
              "rmdir,link,linkat,symlink,symlinkat,truncate,ftruncate,execve,clone,clone3,fork,vfork")
@@ -938,9 +939,56 @@ def load_corpus():
     return out
 
 
+def argv_stream(ctx, drv_cli):
+    """The command-line layer (Model/CliParse.lean, Model/OverwriteCli.lean): random command lines through the real parser and the
+    real ArgparseRunner with recording generators vs the model — namespace, `_generate` calls with keyword values, post-processor
+    list — and the property's own reading on the implementation: both generators get the same overwrite gate / dry-run flag, which is
+    what the command line says, and `SetFileMode(--file-mode)` is the last file post-processor."""
+    from . import cliparse_tie as ct
+    try:
+        from translate import cliargs
+        tr = cliargs.main(common.REPO)
+        ctx.extra.setdefault("translator", {})["cliargs"] = {"changed": tr["changed"], "actions": tr["actions"], "ppRules": tr["ppRules"]}
+    except Exception as e:  # the parser / runner can no longer be expressed in the tables: tie broken
+        ctx.broken.append({"kind": "translator", "translator": "cliargs", "error": repr(e)[:500]})
+    if drv_cli is None:
+        return
+    impl = ct.Impl()
+    bias = ["--no-overwrite", "--file-mode", "--dry-run", "-d", "--pp-max-emptylines", "--pp-trim-trailing-whitespace", "-pp-rp", "--pp-run-program",
+            "-pp-rpa", "--pp-run-program-arg", "--omit-serialization-support", "-pod", "--generate-support", "--embed-auditing-info"]
+    nsdir = ctx.scratch / "argv_ns"
+    nsdir.mkdir(exist_ok=True)
+    argvs = [list(a) for a in ct.CORPUS] + ct.random_argvs(ctx.rng, impl, 1200 if ctx.quick else 20000, bias=bias)
+    runnable = ct.runnable_argvs(ctx.rng, 300 if ctx.quick else 5000, str(nsdir))
+    answers = drv_cli.ask(["parse " + " ".join(enc(a) for a in argv) for argv in argvs + runnable], timeout=1200)
+    acc = ct.compare_parse(ctx, "argv", impl, argvs, answers[:len(argvs)])
+    acc_run = ct.compare_parse(ctx, "argv-runnable", impl, runnable, answers[len(argvs):])
+
+    def oracle(argv, args, p):
+        gen = [(t, kw) for t, fn, kw in p.get("calls", []) if fn == "generate_all"]
+        listing = bool(args.list_outputs or args.list_inputs or args.list_configuration)
+        if not listing:
+            for t, kw in gen:
+                want = {"allow_overwrite": not args.no_overwrite, "is_dryrun": args.dry_run}
+                got = {k: kw.get(k, {"allow_overwrite": True, "is_dryrun": False}[k]) for k in want}
+                if got != want:
+                    ctx.fail({"kind": "cli-gate-not-forwarded", "target": t},
+                             "a generator is called with another overwrite gate / dry-run flag than the command line asks for",
+                             {"argv": argv, "target": t, "got": got, "expected": want})
+            if len({json.dumps({k: repr(v) for k, v in kw.items()}, sort_keys=True) for _, kw in gen}) > 1:
+                ctx.fail({"kind": "cli-gate-differs"}, "support generator and type generator receive different keyword values",
+                         {"argv": argv, "calls": [[t, {k: repr(v) for k, v in kw.items()}] for t, kw in gen]})
+        fpps = [x for x in (p.get("pps") or []) if type(x).__mro__[1].__name__ == "FilePostProcessor" or type(x).__name__ in ("SetFileMode", "ExternalProgramEditInPlace")]
+        if not fpps or type(fpps[-1]).__name__ != "SetFileMode" or fpps[-1]._file_mode != args.file_mode:
+            ctx.fail({"kind": "cli-set-file-mode-not-last"}, "SetFileMode(--file-mode) is not the last file post-processor the generators receive",
+                     {"argv": argv, "post_processors": [type(x).__name__ for x in (p.get("pps") or [])]})
+    ct.compare_plan(ctx, "argv-plan", impl, acc_run + acc[: (100 if ctx.quick else 3000)], oracle)
+
+
 def run(ctx: common.Ctx):
-    drivers = ctx.prove(["C12"], exes=["overwrite"])
+    drivers = ctx.prove(["C12"], exes=["overwrite", "cli"])
     drv = drivers.get("overwrite")
+    argv_stream(ctx, drivers.get("cli"))
     ctx.rule = ("cli: histories of 3-6 real nnvg invocations under strace (language, --file-mode, --no-overwrite, --omit-serialization-support, "
                 "--generate-support, line post-processors, --pp-run-program incl. failing) into a directory pre-populated with foreign files and "
                 "stale files of random modes at output paths; lib: _generate_code/_copy_header in-process under strace, exhaustive "
@@ -978,6 +1026,9 @@ def run(ctx: common.Ctx):
         dig = {}
         for f in ctx.failures:
             r = f["replay"]
+            if "history" not in r:
+                dig[f"{f['key'].get('kind')}|argv"] = dig.get(f"{f['key'].get('kind')}|argv", 0) + 1
+                continue
             k = f"{f['key'].get('kind')}|{r['history']['steps'][r['step']].get('lang')}|step{r['step']}|{r.get('path')}|{r.get('got')}|{r.get('expected')}"
             dig[k] = dig.get(k, 0) + 1
         for d in ctx.disagreements:
